@@ -20,6 +20,8 @@ type rec struct {
 	Resv   bool   `json:"resv"`   // obs: the inventory still holds a reservation
 	Hn     bool   `json:"hn"`     // obs: the hostname service still holds the lease's hostnames
 	Obs    bool   `json:"obs"`    // obs: observations were possible
+	Q      bool   `json:"q"`      // obs: the implementation is quiescent (nothing in flight, no gate closed)
+	RK     bool   `json:"rk"`     // obs: resv is meaningful (the service answers Status)
 	ID     int    `json:"id"`     // reset: script number
 	Pre    bool   `json:"pre"`    // reset: deployment pre-existing at service start
 	Script string `json:"script"` // reset: the stimuli, space separated (information only)
@@ -53,6 +55,7 @@ func fold(raws []raw) map[string][]rec {
 			r.M = x.M
 			if x.K == "obs" {
 				r.Resv, r.Hn, r.Obs = x.Runch, x.Err, x.R == "ok"
+				r.Q, r.RK = x.C == "q", x.State == "resv-known"
 			}
 			add(r)
 		case "N":
